@@ -606,6 +606,23 @@ impl<T: Deref<Target = [Cell<Value>]>> ReadHandle<'_, T> {
         }
     }
 
+    /// Overwrite the contents of `row` with `vals`.
+    ///
+    /// # Safety
+    /// The same requirements as [`ReadHandle::set_stale_shared`] apply: there must be no
+    /// concurrent reads or writes to `row`, and `row` must be in bounds of the initial vector or
+    /// of a previously completed write.
+    pub(crate) unsafe fn write_row_shared(&self, row: RowId, vals: &[Value]) {
+        assert_eq!(vals.len(), self.buf.n_columns);
+        let cells: &[Cell<Value>] = &self.data;
+        let cell_ptr: *const Cell<Value> = cells.as_ptr();
+        for (i, val) in vals.iter().enumerate() {
+            let cell: &Cell<Value> =
+                unsafe { &*cell_ptr.add(row.index() * self.buf.n_columns + i) };
+            cell.set(*val);
+        }
+    }
+
     /// See the documentation for [`RowBuffer::set_stale_shared`].
     ///
     /// In addition to the requirements there, `row` is allowed to be out of bounds of the initial
